@@ -48,6 +48,7 @@ static void add_fault(fileinfo *fi, int kind, long a, unsigned b, int accept, co
     va_start(ap, fmt); vsnprintf(f->desc, sizeof(f->desc), fmt, ap); va_end(ap);
 }
 
+static int g_tier;
 static void add_word_faults(fileinfo *fi, long k, const char *field, int accept)
 {
     static const unsigned edge[] = { 0u, 1u, 0xffffffffu, 0x7fffffffu, 0x80000000u, 2u, 0x00010000u, 0x7fc00000u /* NaN */ };
@@ -59,8 +60,9 @@ static void add_word_faults(fileinfo *fi, long k, const char *field, int accept)
     add_fault(fi, F_WORD, k, orig + 1, accept, cls, "%s (offset %ld, %u) incremented", field, k, orig);
     if (orig) add_fault(fi, F_WORD, k, orig - 1, accept, cls, "%s (offset %ld, %u) decremented", field, k, orig);
     if (orig) add_fault(fi, F_WORD, k, orig * 2, accept, cls, "%s (offset %ld, %u) doubled", field, k, orig);
-    add_fault(fi, F_WORD, k, orig ^ 0x80u, accept, cls, "%s (offset %ld, %u) bit 7 flipped", field, k, orig);
-    add_fault(fi, F_WORD, k, orig ^ 0x01000000u, accept, cls, "%s (offset %ld, %u) bit 24 flipped", field, k, orig);
+    { static const int qbits[] = { 0, 3, 7, 12, 15, 16, 20, 23, 24, 25, 27, 29, 30, 31 }; int b;      /* single-bit flips: all 32 in the thorough tier */
+      if (g_tier) for (b = 0; b < 32; ++b) add_fault(fi, F_WORD, k, orig ^ (1u << b), accept, cls, "%s (offset %ld, %u) bit %d flipped", field, k, orig, b);
+      else for (b = 0; b < (int)(sizeof(qbits) / sizeof(qbits[0])); ++b) add_fault(fi, F_WORD, k, orig ^ (1u << qbits[b]), accept, cls, "%s (offset %ld, %u) bit %d flipped", field, k, orig, qbits[b]); }
     if (__builtin_bswap32(orig) != orig) add_fault(fi, F_WORD, k, __builtin_bswap32(orig), accept, cls, "%s (offset %ld, %u) byte-swapped", field, k, orig);
 }
 
@@ -161,6 +163,7 @@ static long ncases(int tier, long req)
 {
     int m, f; long t = 0;
     (void)req;
+    g_tier = tier;
     vd_init();
     for (m = 0; m < 2; ++m) for (f = 0; f < NFILES; ++f) {
         fileinfo *fi = &FI[m][f]; const char *path = (f == 6) ? vh_path("%s/tests/data/feature_transform", vh_repo) : vh_path("%s/model/%s/%s", vh_repo, models[m], files[f]);
